@@ -195,6 +195,10 @@ impl DocumentBlock {
                 }
                 let last_block = item.last_mut().unwrap();
                 last_block.append_inline(inline, line_range.clone());
+                // the item's text may continue on further lines
+                if let DocumentBlock::Para(para) = last_block {
+                    para.line_range.end = para.line_range.end.max(line_range.end);
+                }
             }
             DocumentBlock::BulletList(list) => {
                 let item = list.items.last_mut().unwrap();
@@ -210,6 +214,10 @@ impl DocumentBlock {
                 }
                 let last_block = item.last_mut().unwrap();
                 last_block.append_inline(inline, line_range.clone());
+                // the item's text may continue on further lines
+                if let DocumentBlock::Para(para) = last_block {
+                    para.line_range.end = para.line_range.end.max(line_range.end);
+                }
             }
             DocumentBlock::Header(header) => header.inlines.push(inline),
             DocumentBlock::HorizontalRule(_) => {}
